@@ -4,6 +4,9 @@
      CBuild  one krusty.Run of a generated tree within the scope of Res/Compose.v: observed outcome
              class and the ids of the output documents in output order *)
 From KV Require Export Res.Compose Res.LabelNest Gen.LegacyOrder Gen.FieldSpecs.
+(* the configurations model lives on the C03 slice, whose gvk type has the same field names as LegacySort's:
+   required, not imported *)
+From KV Require Res.ConfigMerge Gen.NameRefRules.
 Open Scope string_scope.
 
 (* a document id as it is written in YAML: apiVersion, kind, namespace, name *)
@@ -70,7 +73,11 @@ Inductive case11 :=
          (cls : oclass) (out : list ydoc)
 (* a successful krusty.Run of a tree in the scope of Res/LabelNest.v (no renaming, no sortOptions): the output
    documents in order, each with its metadata.labels *)
-| CLabels (t : yltree) (out : list (ydoc * labels)).
+| CLabels (t : yltree) (out : list (ydoc * labels))
+(* a successful krusty.Run of a tree of the nameref-configurations family: the accumulated nameReference table
+   decides which of the candidate targets (apiVersion, kind) the referrer field is rewritten to *)
+| CCfg (t : ConfigMerge.ctree) (ref_api ref_kind path : string) (cands : list (string * string))
+       (observed : option (string * string)).
 
 Definition oclass_eqb (a b : oclass) : bool :=
   match a, b with
@@ -130,6 +137,18 @@ Definition agree11 (c : case11) : bool :=
       end
   | CLabels t out =>
       labelled_eqb (lflat (ltree_of t)) (map (fun dl => (rid_of (fst dl), snd dl)) out)
+  | CCfg t ra rk path cands observed =>
+      let gv := fun (ak : string * string) => let (g, v) := parse_gv (fst ak) in ResId.gvk_lit g v (snd ak) in
+      match ConfigMerge.resolve NameRefRules.gen_gvk_order_first NameRefRules.gen_gvk_order_last
+                                NameRefRules.gen_nameref_raw (gv (ra, rk)) path (map gv cands) t with
+      | Ok w =>
+          match w, observed with
+          | None, None => true
+          | Some x, Some o => ResId.gvk_equals x (gv o)
+          | _, _ => false
+          end
+      | _ => false
+      end
   end.
 
 Fixpoint mism_from {A} (agree : A -> bool) (i : N) (l : list A) : list N :=
